@@ -14,6 +14,9 @@ unwinding included" is the language's guarantee):
                       from random_docker_identifier; rebuild takes self by value and forwards the same guard
   R5 temp dirs        the app copy and the buildpack output dir are owned as TempDir values (local / enum field)
   R6 no abort         no Cargo profile in the workspace sets panic = "abort"
+Deepening round (function deepen() below; necessary conditions of clauses the structural rules leave open):
+  R1 failure-tolerant / command-unmodified / run_command, R2 pack-command / self-removing, R3 no-process-exit,
+  R4 removal-only-in-drop / guard-immutable / identifier-random, R5 buildpack-dir / sbom-dir-used.
 Not decided: that Docker honours the commands; double faults (a panicking ContainerContext::drop during unwinding
 aborts the process) — documented observation, two independent faults are outside the one-injection quantifier.
 
@@ -34,9 +37,11 @@ How the obligations are read off the facts (so that they hold for every spelling
 import os
 from .lib.cmdmodel import command_model, from_command_fns
 from .lib.effects import Effects, vocab_lookup
+from .lib.mir import fmt_place
 from .lib.paths import strip
 from .lib.value import vstr, walk, canon
 from .C16_helpers import construction_sites, guard_frames, held, owning_fields, param_fields, top_call
+from .C16_helpers import (ctor_field_params, divergence_points, flag_conditions, guard_mutations, literal_sites, params_in, result_fate_levels, sets_param, tempdir_path)
 
 TDR = 'libcnb_test::test_runner::TemporaryDockerResources'
 CC = 'libcnb_test::container_context::ContainerContext'
@@ -298,3 +303,318 @@ def run(ctx, rep):
     rep.check(not bad and seen > 0, 'R6', 'profiles', 'Cargo.toml', 'no profile sets panic = "abort" (%d manifests)' % seen, 'panic = "abort" in %s: Drop guards would not run' % bad)
     crate_panic = [v['panic'] for k, v in prog.crates.items() if k[0] == 'libcnb_test']
     rep.check(crate_panic == ['Unwind'], 'R6', 'strategy', '-', 'libcnb_test is compiled with panic=unwind', 'libcnb_test panic strategy: %s' % crate_panic)
+
+    deepen(ctx, rep, dict(E=E, effects=effects, models=models, cmds=cmds, removal=removal, drop_runs=drop_runs, bi=bi, sc=sc, gi=gi,
+                          is_guard=is_guard, guard_field=guard_field, packs=packs, w=w))
+
+
+PKG_CRATE = 'libcnb_test::build::package_crate_buildpack'
+PKG_ID = 'libcnb_test::build::package_buildpack'
+LIB_PKG = 'libcnb_package::package::package_buildpack'
+RESOLVER = 'libcnb_package::output::create_packaged_buildpack_dir_resolver'
+SBOM_OUT = 'libcnb_test::pack::PackSbomDownloadCommand::output_dir'
+DRUN = 'libcnb_test::docker::DockerRunCommand'
+IT = 'std::iter::Iterator::'
+MIN_RANDOM_CHARS = 8
+
+
+def deepen(ctx, rep, env):
+    """Obligations added in the deepening round (necessary conditions of clauses the structural rules above leave open):
+      R1 failure-tolerant     no removal of the image/volume guard is skipped because an earlier removal failed, and the image
+                              removal itself tolerates failure (after a failed `pack build` there is no image to remove)
+      R1 command-unmodified   the removal command handed to run_command is the one `new` made: no setter un-forces it
+      R1 run_command          run_command spawns the command it is given on every path
+      R2 pack-command         PackBuildCommand::new stores the guard's names in the fields that the argv conversion emits as the
+                              image (`build <image>`) and as the two `--cache ...name=<volume>` values
+      R2 self-removing        every `docker run` not owned by a ContainerContext guard is foreground and `--rm`
+      R3 no-process-exit      nothing in libcnb-test ends the process without unwinding
+      R4 removal-only-in-drop removal commands are issued by the two Drop impls only (exactly once, after the last use)
+      R4 guard-immutable      no field of a guard (or of the guard held by a TestContext) is overwritten or mutably borrowed
+                              after construction: the guard removes what was created under its original names
+      R4 identifier-random    random_docker_identifier draws enough characters from an unseeded generator
+      R5 buildpack-dir / sbom-dir-used  packaging output and SBOM downloads are directed into the owned TempDir"""
+    prog, sl = ctx.prog, ctx.slicer
+    removal, drop_runs, bi, sc, w = env['removal'], env['drop_runs'], env['bi'], env['sc'], env['w']
+    models, cmds = env['models'], env['cmds']
+    rm_types = (RM_IMAGE, RM_VOLUME, RM_CONTAINER)
+    rm_setters = {p: ('RM_SET', None) for p, fn in prog.fns.items() if fn.kind == 'AssocFn' and not fn.derived and
+                  any(p.startswith(t + '::') for t in rm_types) and p not in RM_CTORS}
+    vocab = {RUN: ('RUN', 0), DRUN_NEW: ('DRUN_NEW', None), DRUN + '::remove': ('DRUN_REMOVE', None), DRUN + '::detach': ('DRUN_DETACH', None),
+             PKG_CRATE: ('PKG', None), PKG_ID: ('PKG', None), LIB_PKG: ('LIB_PKG', None), RESOLVER: ('RESOLVER', None),
+             'std::fs::create_dir_all': ('MKDIR', 0), 'std::fs::create_dir': ('MKDIR', 0), SBOM_OUT: ('SBOM_OUT', None)}
+    vocab.update(rm_setters)
+    E2 = Effects(prog, sl, vocab=vocab)
+    _exp = {}
+
+    def effects(f, mode):
+        k = (f.path, mode)
+        if k not in _exp:
+            _exp[k] = E2.expand(f, mode)
+        return _exp[k]
+
+    callee = lambda e: prog.fns.get(e.call.res) or prog.fns.get(e.call.decl)
+    # ---- R1 failure-tolerant ---------------------------------------------------------------------------------------
+    tf, tmay, _ = drop_runs(TDR)
+    if tf is not None:
+        rem = [(e, removal(e, tf)[0]) for e in tmay]
+        rem = [(e, ty) for e, ty in rem if ty is not None]
+        points = divergence_points(prog, tf)
+        bad, unp = [], []
+        for e, ty in rem:
+            kinds, panics = result_fate_levels(prog, e)
+            if 'escapes' in kinds:
+                unp.append('the result of %s is handed to code that is not modelled' % ty.split('::')[-1])
+            for pf, via in panics:
+                points.add(via.bb if (via is not None and pf is tf) else top_call(e).bb)
+                if ty == RM_IMAGE:
+                    bad.append('the image removal panics when `docker rmi` fails — after a failed `pack build` there is no image, so the volumes are never removed')
+        for e, ty in rem:
+            tb = top_call(e).bb
+            late = sorted(p for p in points if not (tf.dominates(tb, p) and tb != p))
+            if late:
+                bad.append('%s can be skipped: drop can panic / exit at bb%s before it has run' % (ty.split('::')[-1], late))
+        if bad or not unp:
+            rep.check(not bad and bool(rem), 'R1', 'resources/failure-tolerant', w(tf), 'no removal is skipped when another removal fails',
+                      'a failing removal keeps the rest of the clean-up from running: ' + '; '.join(sorted(set(bad))))
+        else:
+            rep.unproven('R1', 'resources/failure-tolerant', w(tf), '; '.join(unp))
+    # ---- R1 command-unmodified -------------------------------------------------------------------------------------
+    for ty in (TDR, CC):
+        df = prog.fns.get('<%s as std::ops::Drop>::drop' % ty)
+        if df is None:
+            continue
+        bad = []
+        for e in effects(df, 'may'):
+            if e.kind != 'RM_SET':
+                continue
+            sf = callee(e)
+            k = sets_param(sl, sf, 'force') if sf is not None else None
+            if not (k is not None and k < len(e.args or ()) and strip(e.args[k]) == ('const', True)):
+                bad.append('%s at %s' % (e.call.name, e.where()))
+        rep.check(not bad, 'R1', 'command-unmodified/' + ty.split('::')[-1], w(df), 'the removal commands are run as constructed (forced)',
+                  'a removal command is modified after construction (no longer provably `--force` for the guard\'s own name): %s' % bad)
+    # ---- R1 run_command --------------------------------------------------------------------------------------------
+    rc = prog.fns.get(RUN)
+    if rc is None:
+        rep.unproven('R1', 'run_command', '-', 'run_command not found')
+    else:
+        rep.analysed(rc)
+        must = [e for e in effects(rc, 'must') if e.kind == 'SPAWN']
+        own = [e for e in must if e.path is not None and 0 in params_in(sl.inline_deep(e.path), rc.path)]
+        rep.check(bool(own) and len(own) == len(must), 'R1', 'run_command', w(rc), 'run_command spawns the command it is given on every path',
+                  'run_command does not spawn its own command on every path (%d of %d spawn effects)' % (len(own), len(must)))
+    # ---- R2 pack-command -------------------------------------------------------------------------------------------
+    pn = prog.fns.get(PACK_NEW)
+    pm = models.get('libcnb_test::pack::PackBuildCommand')
+    fp = ctor_field_params(sl, pn) if pn is not None else None
+    if pn is None or pm is None or fp is None:
+        rep.unproven('R2', 'resources/pack-command', '-', 'PackBuildCommand::new / its argv conversion not found or not a struct literal')
+    else:
+        rep.analysed(pn)
+        program, items = pm
+        seq = [el for it in items if it.loop is None and not it.conds for el in it.elems]
+        img_f = next((seq[i + 1][1] for i in range(len(seq) - 1) if seq[i] == ('const', 'build') and seq[i + 1][0] == 'field' and seq[i + 1][2] == 'direct'), None)
+        cache_f = [seq[i + 1][1] for i in range(len(seq) - 1) if seq[i] == ('const', '--cache') and seq[i + 1][0] == 'field' and seq[i + 1][2] == 'fmt' and
+                   len(seq[i + 1][3]) >= 2 and seq[i + 1][3][-1] == '{%s}' % seq[i + 1][1] and str(seq[i + 1][3][-2]).endswith('name=')]
+        ok = program == 'pack' and img_f is not None and len(cache_f) == 2 and len(set(cache_f)) == 2 and img_f not in cache_f and bool(env['packs'])
+        why = 'argv: image field %s, cache volume fields %s' % (img_f, cache_f)
+        if img_f is None or not cache_f:
+            # the conversion is spelled in a way the argv model does not read: undecided, not wrong
+            rep.unproven('R2', 'resources/pack-command', w(cmds['libcnb_test::pack::PackBuildCommand']), 'argv conversion of PackBuildCommand not recognised (%s)' % why)
+            ok = None
+        if ok:
+            for e in env['packs']:
+                names = {i: env['guard_field'](a) for i, a in enumerate(e.args)}
+                src = lambda fld: sorted(names.get(i) or '#%d' % i for i in fp.get(fld, ()))
+                ok = ok and src(img_f) == ['image_name'] and sorted(src(cache_f[0]) + src(cache_f[1])) == sorted(GUARD_NAMES[1:]) and \
+                    len(src(cache_f[0])) == 1
+                why = 'image <- %s, caches <- %s / %s' % (src(img_f), src(cache_f[0]), src(cache_f[1]))
+        if ok is not None:
+            rep.check(ok, 'R2', 'resources/pack-command', w(pn), 'pack builds the image and cache volumes under the guard\'s names (constructor and argv agree)',
+                      'the names the guard removes are not the ones `pack build` is told to create: ' + why)
+    # ---- R2 self-removing ------------------------------------------------------------------------------------------
+    rm_fn = prog.fns.get(DRUN + '::remove')
+    # `--rm` is emitted exactly under the struct's `remove` flag (whatever the spelling of the conversion: `if x.remove`,
+    # `remove.then(|| ..)`), and the setter stores its argument in that flag
+    rm_conds = flag_conditions(prog, sl, cmds[DRUN], '--rm') if DRUN in cmds else None
+    flag_ok = bool(rm_conds) and all(c == [('remove', True)] for c in rm_conds) and rm_fn is not None and sets_param(sl, rm_fn, 'remove') == 1
+    norm = lambda v: canon(strip(sl.inline_deep(strip(v), keep=(DRUN_NEW, RID))))
+    roots = [f2 for f2 in prog.fns.values() if f2.crate == 'libcnb_test' and f2.vis == 'pub' and f2.kind in ('Fn', 'AssocFn') and not f2.derived and f2.path != sc.path]
+    covered = {id(e.call) for e in effects(sc, 'may') if e.kind == 'DRUN_NEW'}     # judged by R2 container/*
+    for f2 in sorted(roots, key=lambda x: x.path):
+        may = effects(f2, 'may')
+        druns = [e for e in may if e.kind == 'RUN' and e.path is not None and
+                 any(x[0] == 'call' and x[1] == DRUN_NEW for x in walk(sl.inline_deep(e.path, keep=(DRUN_NEW, RID))))]
+        if not druns:
+            continue
+        rep.analysed(f2)
+        covered |= {id(e.call) for e in may if e.kind == 'DRUN_NEW'}
+        must = effects(f2, 'must')
+        mk = {(id(e.call), tuple(id(l.call) for l in e.chain)) for e in must}
+        for e in druns:
+            me = norm(e.path)
+            sets = [x for x in may if x.kind == 'DRUN_REMOVE' and x.args and norm(x.args[0]) == me]
+            dets = [x for x in may if x.kind == 'DRUN_DETACH' and x.args and norm(x.args[0]) == me]
+            others = [x for x in may if x.kind in ('DRUN_REMOVE', 'DRUN_DETACH') and x.args and norm(x.args[0]) != me and
+                      not any(y.kind == 'RUN' and y.path is not None and norm(y.path) == norm(x.args[0]) for y in may)]
+            ok = flag_ok and bool(sets) and all(len(x.args) > 1 and strip(x.args[1]) == ('const', True) for x in sets) and \
+                any((id(x.call), tuple(id(l.call) for l in x.chain)) in mk for x in sets) and \
+                all(len(x.args) > 1 and strip(x.args[1]) == ('const', False) for x in dets) and not others
+            if rm_conds is None:
+                rep.unproven('R2', 'self-removing/' + f2.path.split('::')[-1], e.where(), 'cannot read from the argv conversion of DockerRunCommand when `--rm` is emitted')
+                continue
+            rep.check(ok, 'R2', 'self-removing/' + f2.path.split('::')[-1], e.where(), 'the container of this `docker run` is foreground and removes itself (--rm)',
+                      'a container is started without a ContainerContext guard and without `--rm` (or detached): nothing ever removes it')
+    # every place that makes a `docker run` command is accounted for by one of the judgements above
+    stray = [c.where() for f2 in prog.fns.values() if f2.crate == 'libcnb_test' and not f2.derived for c in f2.calls
+             if not c.indirect and c.name == DRUN_NEW and id(c) not in covered]
+    if stray:
+        rep.unproven('R2', 'self-removing/unaccounted', stray[0], 'a `docker run` command is built where no public entry point was seen to run it: %s' % stray)
+    # ---- R3 no-process-exit ----------------------------------------------------------------------------------------
+    bad = []
+    for f2 in prog.fns.values():
+        if f2.crate != 'libcnb_test':
+            continue
+        for c in f2.calls:
+            ve = vocab_lookup(c)
+            if ve and ve[0] == 'EXIT':
+                bad.append('%s at %s' % (c.name, c.where()))
+    rep.check(not bad, 'R3', 'no-process-exit', 'libcnb-test', 'libcnb-test never ends the process without unwinding',
+              'the process is ended without unwinding (no Drop guard runs, temp dirs stay): %s' % bad)
+    # ---- R4 removal-only-in-drop -----------------------------------------------------------------------------------
+    drops = [prog.fns.get('<%s as std::ops::Drop>::drop' % t) for t in (TDR, CC)]
+    drops = [d for d in drops if d is not None]
+    allowed = {d.path for d in drops}
+    callers = prog.callers()
+    changed = True
+    while changed:        # private functions / closures entered from the drops only
+        changed = False
+        for p2, f2 in prog.reach(drops).items():
+            if p2 in allowed or f2.crate != 'libcnb_test':
+                continue
+            if f2.kind == 'Closure':
+                okc = f2.parent in allowed if getattr(f2, 'parent', None) else any(p2.startswith(a + '::{closure') for a in allowed)
+            else:
+                cs = callers.get(p2, [])
+                okc = f2.vis != 'pub' and bool(cs) and all(c.fn.path in allowed for c in cs)
+            if okc:
+                allowed.add(p2)
+                changed = True
+    infra = set(RM_CTORS) | {f2.path for t, f2 in cmds.items()}
+    bad = []
+    for f2 in prog.fns.values():
+        if f2.crate != 'libcnb_test' or f2.derived or f2.path in allowed or f2.path in infra:
+            continue
+        sites = [c.where() for c in f2.calls if not c.indirect and c.name in RM_CTORS] + \
+                ['%s:%d' % (f2.file, f2.line) for t in rm_types for _ in literal_sites(f2, t)]
+        if any(g.path in RM_CTORS for c in f2.calls for g in prog.fn_item_args(c)):
+            sites.append('%s (constructor handed over as a function)' % f2.path)
+        if sites:
+            bad.append('%s: %s' % (f2.path.split('::')[-1], sites))
+    rep.check(not bad and bool(drops), 'R4', 'removal-only-in-drop', '-', 'removal commands are issued by the Drop impls only',
+              'a removal command is built outside the Drop impls (a resource is removed before its last use / more than once): %s' % bad)
+    # ---- R4 guard-immutable ----------------------------------------------------------------------------------------
+    # the names a guard removes are the ones it was constructed with: nothing in libcnb-test overwrites a field of a guard
+    # (or the guard held by a TestContext), or borrows it mutably, once it exists — the Drop impls' own receiver aside
+    bad = []
+    for f2 in prog.fns.values():
+        if f2.crate != 'libcnb_test' or f2.derived:
+            continue
+        for bb, what, pl in guard_mutations(prog, f2, (TDR, CC)):
+            if f2.path in allowed and what == 'mutable borrow':
+                continue
+            bad.append('%s of %s in %s (%s:%d)' % (what, fmt_place(f2, pl), f2.path.split('::')[-1], f2.file, f2.line))
+    rep.check(not bad, 'R4', 'guard-immutable', '-', 'guards keep the names they were constructed with',
+              'a guard is modified after construction — it no longer removes what was created under its original names: %s' % sorted(set(bad)))
+    # ---- R4 identifier-random --------------------------------------------------------------------------------------
+    rid = prog.fns.get(RID)
+    if rid is None:
+        rep.unproven('R4', 'identifier-random', '-', 'random_docker_identifier not found')
+    else:
+        rep.analysed(rid)
+        rv = sl.inline_deep(sl.local(rid, 0))
+        inside = [rid] + list(prog.closures_of(rid))
+        called = {c.name for f2 in inside for c in f2.calls if c.name}
+        items = {x[1] for f2 in inside for x in walk(sl.local(f2, 0)) if x[0] in ('fnitem', 'call') and x[1]} | \
+                {x[1] for x in walk(rv) if x[0] in ('fnitem', 'call') and x[1]}
+        names = called | items
+        seeded = sorted(n for n in names if n.split('::')[-1] in ('with_seed', 'seed', 'seed_from_u64', 'from_seed', 'fork'))
+        glob = sorted(n for n in names if (n.startswith('fastrand::') and n.count('::') == 1 and n not in ('fastrand::seed', 'fastrand::get_seed'))
+                      or n in ('fastrand::Rng::new', 'rand::random', 'rand::thread_rng', 'rand::rng', 'uuid::Uuid::new_v4'))
+        count = _drawn(rv)
+        if seeded or not glob:
+            rep.violated('R4', 'identifier-random', w(rid), 'identifiers are not drawn from an unseeded generator (seeded by %s, sources %s): runs share names and remove each other\'s resources' % (seeded, glob))
+        elif count is None:
+            rep.unproven('R4', 'identifier-random', w(rid), 'cannot determine how many random characters the identifier has: ' + vstr(rv)[:160])
+        else:
+            rep.check(count >= MIN_RANDOM_CHARS, 'R4', 'identifier-random', w(rid), 'identifiers carry %d characters from an unseeded generator' % count,
+                      'identifiers carry only %d random characters: concurrent runs collide and remove each other\'s resources' % count)
+    # ---- R5 buildpack-dir / sbom-dir-used --------------------------------------------------------------------------
+    pk = [e for e in effects(bi, 'may') if e.kind == 'PKG']
+    bad, idx = [], {}
+    for e in pk:
+        hit = [i for i, a in enumerate(e.args or ()) if tempdir_path(sl, a)]
+        cf = callee(e)
+        if len(hit) != 1 or cf is None:
+            bad.append('%s at %s is not directed into the TempDir' % (e.call.name.split('::')[-1], e.where()))
+        else:
+            idx.setdefault(cf.path, set()).add(hit[0])
+    inner_bad = []
+    work = sorted(idx.items())
+    done = set()
+    while work and not bad:
+        path, ii = work.pop()
+        if path in done:
+            continue
+        done.add(path)
+        pf = prog.fns[path]
+        rep.analysed(pf)
+        if len(ii) != 1:
+            inner_bad.append('%s receives the directory at positions %s' % (path, sorted(ii)))
+            continue
+        ti = next(iter(ii))
+        for e in effects(pf, 'may'):
+            if e.kind == 'PKG':
+                cf = callee(e)
+                hit = [i for i, a in enumerate(e.args or ()) if strip(a) == ('param', pf.path, ti, strip(a)[3] if len(strip(a)) > 3 else None)]
+                if len(hit) != 1 or cf is None:
+                    inner_bad.append('%s does not forward its output directory to %s' % (path.split('::')[-1], e.call.name.split('::')[-1]))
+                else:
+                    work.append((cf.path, {hit[0]}))
+            elif e.kind == 'RESOLVER':
+                if not (e.args and ti in params_in(e.args[0], pf.path) and params_in(e.args[0], pf.path) == {ti}):
+                    inner_bad.append('%s resolves packaged buildpack directories below %s' % (path.split('::')[-1], vstr(e.args[0])[:80] if e.args else '?'))
+            elif e.kind in ('MKDIR', 'LIB_PKG'):
+                dest = e.path if e.kind == 'MKDIR' else (e.args[4] if e.args and len(e.args) > 4 else None)
+                if dest is None or ti not in params_in(dest, pf.path):
+                    inner_bad.append('%s writes to %s, which is not below its output directory' % (path.split('::')[-1], vstr(dest)[:80] if dest else '?'))
+    # build_internal itself creates / writes nothing outside a TempDir it owns
+    from .lib.effects import MUTATING
+    for e in effects(bi, 'may'):
+        if e.kind in MUTATING and not (e.path is not None and any(tempdir_path(sl, x) for x in walk(sl.inline_deep(e.path)) if x[0] == 'call')):
+            bad.append('%s of %s at %s is outside the owned temporary directories' % (e.kind, vstr(e.path)[:60] if e.path else '?', e.where()))
+    rep.check(bool(pk) and not bad and not inner_bad, 'R5', 'buildpack-dir', w(bi), 'buildpacks are packaged into the owned TempDir only',
+              'a packaged buildpack directory is written outside the TempDir and left behind: %s' % (bad + inner_bad))
+    ds = prog.find_one(r"^libcnb_test::test_context::TestContext::<'_>::download_sbom_files$")
+    outs = [e for e in effects(ds, 'may') if e.kind == 'SBOM_OUT']
+    rep.check(bool(outs) and all(len(e.args) > 1 and tempdir_path(sl, e.args[1]) for e in outs), 'R5', 'sbom-dir-used', w(ds),
+              'SBOM files are downloaded into the owned TempDir', 'SBOM files are downloaded to a directory that is not the owned TempDir')
+
+
+def _drawn(v, depth=0):
+    """number of elements an iterator expression inside v yields when that is a literal: `repeat_with(..).take(n)`,
+    `(a..b).map(..)`, `[..; n]`; None when unknown"""
+    for x in walk(v):
+        if x[0] == 'call' and x[1] == IT + 'take' and len(x[2]) == 2:
+            n = strip(x[2][1])
+            src = strip(x[2][0])
+            if n[0] == 'const' and isinstance(n[1], int) and src[0] == 'call' and src[1] in ('std::iter::repeat_with', 'std::iter::from_fn', 'std::iter::repeat'):
+                return n[1]
+            return None
+        if x[0] == 'agg' and (x[1] or '') in ('std::ops::Range', 'std::ops::RangeInclusive'):
+            fl = {k: strip(fv) for k, fv in x[3]}
+            a, b = fl.get('start'), fl.get('end')
+            if a and b and a[0] == 'const' and b[0] == 'const' and isinstance(a[1], int) and isinstance(b[1], int):
+                return b[1] - a[1] + (1 if x[1].endswith('Inclusive') else 0)
+            return None
+    return None
